@@ -3,6 +3,7 @@ package props
 import (
 	"encoding/json"
 	"fmt"
+	"strings"
 	"testing"
 
 	"verif/harness/simrt"
@@ -11,6 +12,18 @@ import (
 func marshalPlan(pl interface{}) json.RawMessage {
 	b, _ := json.Marshal(pl)
 	return b
+}
+
+// oddNames sometimes gives the sorter a prefix and a parent directory with
+// blanks or glob metacharacters: legal file names, handed to ioutil.TempDir.
+func oddNames(r *simrt.RNG, pl *MorassPlan) {
+	if r.Intn(8) != 0 {
+		return
+	}
+	pl.Prefix = []string{"v m", "vm[1]", "a?b", "x*y", "[a-z]", "vm{1}", "q\\w"}[r.Intn(7)]
+	if r.Bool() {
+		pl.DirName = []string{"scratch [1]", "a b", "q?", "*star*", "[x]"}[r.Intn(5)]
+	}
 }
 
 func genKeys(r *simrt.RNG, n int) []int {
@@ -65,15 +78,26 @@ func genC11(r *simrt.RNG) *Case {
 		pl.Payload = r.Pick(1, 16, 700)
 	}
 	pl.Concurrent = r.Intn(4) == 0
+	if r.Intn(10) == 0 {
+		pl.Reg = true // an element type the application registered with gob itself
+	}
+	oddNames(r, &pl)
 	nc := r.Range(1, 4)
 	if r.Intn(12) == 0 {
 		nc = r.Range(5, 9) // state that only goes wrong after several cycles
+	}
+	long := r.Intn(40) == 0 && pl.Chunk < 100
+	if long {
+		nc = r.Range(17, 40) // slow leaks: many short cycles on one sorter
 	}
 	if pl.Chunk == 100 {
 		nc = r.Range(1, 2)
 	}
 	for i := 0; i < nc; i++ {
 		n := cycleCount(r, pl.Chunk)
+		if long {
+			n = r.Pick(0, 1, pl.Chunk, pl.Chunk+1, r.Intn(2*pl.Chunk+2))
+		}
 		cy := MCycle{Keys: genKeys(r, n), Drain: -1}
 		switch x := r.Intn(20); {
 		case x < 5 && n > 0:
@@ -206,6 +230,10 @@ func genC12(r *simrt.RNG) *Case {
 	if pl.Struct && r.Intn(4) == 0 {
 		pl.Payload = r.Pick(4, 64, 600)
 	}
+	if r.Intn(10) == 0 {
+		pl.Reg = true
+	}
+	oddNames(r, &pl)
 	n := r.Intn(6*pl.Chunk + 1)
 	switch r.Intn(5) {
 	case 0:
@@ -246,6 +274,7 @@ func genC13Fault(r *simrt.RNG) *Case {
 	if pl.Struct {
 		pl.Payload = r.Pick(0, 32, 700)
 	}
+	oddNames(r, &pl)
 	n := pl.Chunk*r.Range(1, 4) + r.Intn(pl.Chunk+1)
 	if r.Intn(8) == 0 {
 		n = r.Intn(pl.Chunk) // in-memory only: faults can only hit New
@@ -302,7 +331,13 @@ func genC13Residue(r *simrt.RNG) *Case {
 	return c
 }
 
-var listedFaultKinds = map[string]bool{"tempdir": true, "tempfile": true, "encode": true, "sync": true, "seek": true, "decode": true}
+// faultable: every woven I/O call whose failure the statement covers
+func faultable(kind string) bool { return !simrt.Unfaultable(kind) }
+
+// readKind / writeKind classify calls for the choice of error identity.
+func readKind(kind string) bool {
+	return kind == "decode" || strings.HasPrefix(kind, "read")
+}
 
 func exploreC13(t *testing.T, w *Worker, r *simrt.RNG) {
 	if r.Intn(4) == 0 {
@@ -326,17 +361,32 @@ func exploreC13(t *testing.T, w *Worker, r *simrt.RNG) {
 	explicit.Choices = dry.Choices
 	twoFault := 0
 	for _, io := range dry.IOLog {
-		if !listedFaultKinds[io.Kind] {
+		if !faultable(io.Kind) {
 			continue
 		}
-		modes := []bool{false}
-		if io.Kind == "encode" {
-			modes = append(modes, true)
+		type mode struct {
+			after bool
+			as    string
 		}
-		for _, after := range modes {
+		modes := []mode{{false, ""}}
+		switch {
+		case io.Kind == "encode" || strings.HasPrefix(io.Kind, "write") || io.Kind == "flush":
+			// torn write reported; and, sometimes, the error a full disk gives
+			modes = append(modes, mode{true, ""})
+			if r.Intn(3) == 0 {
+				modes = append(modes, mode{r.Bool(), []string{"enospc", "efbig"}[r.Intn(2)]})
+			}
+		case readKind(io.Kind):
+			// what a truncated run file gives
+			if r.Intn(2) == 0 {
+				modes = append(modes, mode{false, "unexpected-eof"})
+			}
+		}
+		for _, md := range modes {
+			after := md.after
 			c := *base
 			c.Sched = explicit
-			c.Faults = []simrt.FaultSpec{{Ordinal: io.Ordinal, After: after}}
+			c.Faults = []simrt.FaultSpec{{Ordinal: io.Ordinal, After: after, As: md.as}}
 			res := runMorass(t, &c, RunOpts{})
 			w.Stats.Probes[fmt.Sprintf("fault_position[%s]", io.Kind)]++
 			w.Report(&c, res)
@@ -345,7 +395,7 @@ func exploreC13(t *testing.T, w *Worker, r *simrt.RNG) {
 			if !pl.Concurrent && len(pl.Cycles) > 1 && res.Viol == nil && res.Probes["recovered_with_clear_after_error"] > 0 && twoFault < 6 && len(res.Fired) == 1 {
 				var later []simrt.IORecord
 				for _, x := range res.IOLog {
-					if listedFaultKinds[x.Kind] && x.Ordinal > res.Fired[0].Ordinal {
+					if faultable(x.Kind) && x.Ordinal > res.Fired[0].Ordinal {
 						later = append(later, x)
 					}
 				}
